@@ -362,6 +362,16 @@ func runSel(c *h.Ctx, r *h.Report) {
 			runSelCase(c, r, o, selCase{Cap: h.Pick(rr, []int{2, 10000}), Shards: h.Pick(rr, []int{1, 256}), Lookups: lk}, "long-inputs")
 		}
 	}
+	// selectors and topics longer than 64 KiB around the cache-key separator: (S1, T1) and (S2, T2) with
+	// S1+"_"+T1 == S2+"_"+T2, lengths 65536 apart, different answers — in both orders
+	for _, padLen := range []int{65535, 65536, 131071} {
+		pad := strings.Repeat("x", padLen)
+		s1, t1 := "{a}", pad+"_b"
+		s2, t2 := "{a}_"+pad, "b"
+		for _, lk := range [][]selLookup{{{t1, s1}, {t2, s2}, {t1, s1}}, {{t2, s2}, {t1, s1}}} {
+			runSelCase(c, r, o, selCase{Cap: 10000, Shards: 4, Lookups: lk}, "very-long-inputs")
+		}
+	}
 	for i := 0; i < nPlain+nAdv; i++ {
 		rr := c.Rand.Fork()
 		adv := i >= nPlain
